@@ -43,11 +43,17 @@ func RunParse(rng *core.Rng, src string, forced []int, systematic bool, maxPreem
 // number explored and a verdict string ("" = all fine).
 func ExploreParse(src string, budget, maxPreempt int, check func(r *ParseResult) string) (int, string, []string) {
 	var forced []int
-	explored := 0
+	explored, nAbandoned := 0, 0
+	AbandonedParses = map[string]int{}
 	for explored < budget {
 		r := RunParse(core.NewRng(7), src, forced, true, maxPreempt)
 		explored++
+		abandoned := false
 		switch {
+		case r.Sched.Unrepresentable():
+			AbandonedParses[r.Sched.AbandonReason()]++
+			abandoned = true
+			nAbandoned++
 		case r.Sched.Stuck():
 			stuckSchedules++
 			return explored, "inconclusive: a released goroutine never reached a hook again", r.Sched.Trace
@@ -56,8 +62,10 @@ func ExploreParse(src string, budget, maxPreempt int, check func(r *ParseResult)
 		case r.Sched.NotClosed() != "":
 			return explored, r.Sched.NotClosed(), r.Sched.Trace
 		}
-		if d := check(r); d != "" {
-			return explored, d, r.Sched.Trace
+		if !abandoned {
+			if d := check(r); d != "" {
+				return explored, d, r.Sched.Trace
+			}
 		}
 		ch := r.Sched.Choices
 		k := len(ch) - 1
@@ -65,7 +73,7 @@ func ExploreParse(src string, budget, maxPreempt int, check func(r *ParseResult)
 			k--
 		}
 		if k < 0 {
-			return explored, "", nil
+			return explored - nAbandoned, "", nil
 		}
 		forced = forced[:0]
 		for i := 0; i < k; i++ {
@@ -73,8 +81,12 @@ func ExploreParse(src string, budget, maxPreempt int, check func(r *ParseResult)
 		}
 		forced = append(forced, ch[k][1]+1)
 	}
-	return explored, "", nil
+	return explored - nAbandoned, "", nil
 }
+
+// AbandonedParses counts, per reason, the schedules of the last ExploreParse
+// call that were abandoned without a verdict.
+var AbandonedParses = map[string]int{}
 
 // M1Disabled exposes the stuck-schedule guard to other packages.
 func M1Disabled(c *core.Ctx) bool { return m1Disabled(c) }
